@@ -1,6 +1,7 @@
 CONSTANTS
   Subs = {1, 2}
   RegisterBeforeInit = FALSE
+  Streaming = {}
 INIT GenInit
 NEXT GenNext
 CONSTRAINT GenConstraint
